@@ -237,6 +237,13 @@ def explore_pair(res, pair, bound, module_code, kind, max_execs, nthreads=2):
     events = list(pair) if nthreads == 2 else list(pair) + [pair[0]]
     exp = [pristine(e) for e in events]
     watched = watched_codes() if not module_code else set()
+    if not module_code and any(not str(a).isascii() for e in events for a in e[2]):
+        # the look-alike pair: the clean-up table builder is watched too (a lazily built table is first-use state)
+        import importlib
+        u = importlib.import_module('stdnum.util')
+        if hasattr(u, '_mk_char_map'):
+            watched.add(u._mk_char_map.__code__)
+        bound = min(bound, 1)
     # warm up: third-party / stdlib imports happen once, outside the explored executions
     e4.purge()
     for e in events:
@@ -284,7 +291,7 @@ def module_digest(name):
     parts = []
 
     def walk(o, depth):
-        if depth > 3:
+        if depth > 6:
             return '...'
         if isinstance(o, dict):
             return '{%s}' % ','.join('%r:%s' % (k, walk(v, depth + 1)) for k, v in list(o.items())[:2000])
@@ -317,10 +324,12 @@ def _steady(res, name, events, quick):
     for e in events:
         e4.call(e)
     d0 = module_digest(name)
+    changed = False
     for e in events:
         seq.append(e4.call(e)[0])
-    d1 = module_digest(name)
-    if d0 == d1:
+        if module_digest(name) != d0:
+            changed = True      # a call in steady state left a trace in module-level state
+    if not changed:
         return 1, 0
     m = sys.modules[name]
     watched = set()
@@ -522,8 +531,17 @@ def work(item):
             fns += [f for f in sorted(vars(m0)) if f.startswith(('to_', 'get_', 'calc_')) and inspect.isfunction(getattr(m0, f))
                     and len([p for p in inspect.signature(getattr(m0, f)).parameters.values()
                              if p.default is inspect.Parameter.empty]) == 1][:5]
+            # a close neighbour of the first seed (same length and shape: same internal tables / format objects)
+            try:
+                near = [x for x in e2.valid_set(name, m0, 'quick', nseeds=1, cap=4)[0] if x != vals[0]]
+            except Exception:
+                near = []
             for fn in fns:
                 events = [(name, fn, (vals[0],), ()), (name, fn, (vals[1],), ())]
+                if near:
+                    n0, t0 = _steady(res, name, [(name, fn, (vals[0],), ()), (name, fn, (near[0],), ())], quick)
+                    n += n0
+                    nt += t0
                 # option variants: the second thread uses a non-default option with a number valid under it
                 f0 = getattr(m0, fn)
                 for o in option_sets(name, f0, m0.validate)[0][1:3]:
@@ -531,6 +549,15 @@ def work(item):
                         vv, _st = e2.valid_set(name, m0, 'quick', nseeds=2, kw=o, cap=3)
                     except Exception:
                         vv = []
+                    if 'alphabet' in o and isinstance(o['alphabet'], str):
+                        # a number that uses the characters only this alphabet has
+                        from .. import synth
+                        al = o['alphabet']
+                        for tail in al:
+                            cand = al[-1] * 2 + al[-2] + al[len(al) // 2] + tail
+                            if e2._accepts(m0, cand, o):
+                                vv = [cand] + list(vv)
+                                break
                     if vv:
                         events_o = [events[0], (name, fn, (vv[0],), tuple(sorted(o.items())))]
                         n0, t0 = _steady(res, name, events_o, quick)
